@@ -1,6 +1,7 @@
 import OnlVerif.Lemmas.REDKInit
 import OnlVerif.Lemmas.REDKRule
 import OnlVerif.Props.C08
+import OnlVerif.Props.C09
 /-!
 # C09 / C08 on the kernel: generator → REDPort → sink *as processes on the kernel model* refine the RED LTS
 
@@ -181,6 +182,96 @@ theorem sink_on_kernel_counts (c : Cfg ℚ) (gaps : List ℚ) (sizes : List Nat)
   · rw [hcnt.2, hsum]
   · rw [hwa.2]; simp [deliveries, hsame, Function.comp_def]
   · rw [hwa.1]; simp [deliveries, hsame, Function.comp_def]
+
+/-- **RED's drop rule on the kernel, for all workloads and all draw lists.**  Let `s` be reachable and let the next kernel
+step end in `s'`; read `packets_received`, `average_queue_size`, `packets_dropped` off the cells (`absDev`), the queue
+figure off the `K` store (`byte_size` resp. the real length of `store.items`), the draws still unconsumed off the
+generator's local state (`drawsLeft`).  Then the step is either no arrival (counters, average, draw log untouched), or
+exactly one arrival, and then: the new average is `redAvg` of the old one and the queue figure at this instant (so over a
+run the averages follow the `redAvg` recurrence over the queue figures at the arrival instants); `random.uniform` is
+called iff `needsDraw` — i.e. *not* when the average is at/above `qlimit` nor when it is below both thresholds — and then
+the script is not empty and exactly its head `u` is consumed (the generator either sleeps again with the tail — resp. the
+untouched script when no draw was needed — or has returned); the draw logged for the LTS packet is that `u` (`0` when
+none was consumed); the packet is refused (`packets_dropped + 1`, store unchanged) iff `redDrop` of the new average and
+`u` says so, otherwise it is appended to the store; at/above `qlimit` it is always refused; below `min_threshold`
+(with `min_threshold ≤ max_threshold`, below `qlimit`) never. -/
+theorem red_on_kernel_drop_rule (c : Cfg ℚ) (gaps : List ℚ) (sizes : List Nat) (us : List ℚ)
+    (hg : ∀ x ∈ gaps, 0 ≤ x) (hd : 0 ≤ c.initialDelay) (hu : gaps.length ≤ us.length) (fuel : Nat)
+    (s s' : KState ℚ (RSt ℚ))
+    (hreach : KReach (body c sizes) (fuel + 1) (initState gaps sizes us) s)
+    (hstep : (step (body c sizes) (fuel + 1) s).state? = some s') :
+    let d := absDev s
+    let d' := absDev s'
+    let avg' := Port.redAvg d.avg (Port.redCur (cfg c) d (s.res storeId).items.length) c.w
+    let u := if needsDraw c avg' then (drawsLeft s).headD 0 else 0
+    let drop := Port.redDrop (Num.ofNat c.qlimit) c.maxTh c.minTh c.maxP avg' u
+    (d'.received = d.received ∧ d'.avg = d.avg ∧ d'.dropped = d.dropped ∧ usOf s'.trace = usOf s.trace) ∨
+    (d'.received = d.received + 1 ∧ d'.avg = avg' ∧ usOf s'.trace = usOf s.trace ++ [u] ∧
+      (needsDraw c avg' = true → drawsLeft s ≠ []) ∧
+      (drawsLeft s' = (if needsDraw c avg' then (drawsLeft s).tail else drawsLeft s) ∨ s'.triggered genProc = true) ∧
+      (needsDraw c avg' = false ↔ ((Num.ofNat c.qlimit : ℚ) ≤ avg' ∨ (avg' < c.maxTh ∧ avg' < c.minTh))) ∧
+      ((drop = true ∧ d'.dropped = d.dropped + 1 ∧ (s'.res storeId).items = (s.res storeId).items) ∨
+       (drop = false ∧ d'.dropped = d.dropped ∧
+         (s'.res storeId).items = (s.res storeId).items ++ [((d.received : Int) + 1)])) ∧
+      ((Num.ofNat c.qlimit : ℚ) ≤ avg' → drop = true) ∧
+      (avg' < c.minTh → c.minTh ≤ c.maxTh → avg' < (Num.ofNat c.qlimit : ℚ) → drop = false)) := by
+  intro d d' avg' u drop
+  obtain ⟨a, _, hi, _⟩ := reach_inv fuel hg hd hu hreach
+  cases hp : popMin s.agenda with
+  | none => simp [step, hp, StepResult.state?] at hstep
+  | some qr =>
+    obtain ⟨q, rest⟩ := qr
+    obtain ⟨s'', a', new, h1, h2, -, h4, h3, -, -⟩ := inv_step fuel hi hp
+    rw [h1] at hstep
+    simp only [StepResult.state?, Option.some.injEq] at hstep
+    subst hstep
+    have hd0 : d = { byteSize := a.bytes, received := a.recv, dropped := a.dropped, busy := a.busy, busySize := a.bsz, avg := a.avg } :=
+      absDev_eq hi.k
+    have hd1 : d' = { byteSize := a'.bytes, received := a'.recv, dropped := a'.dropped, busy := a'.busy, busySize := a'.bsz, avg := a'.avg } :=
+      absDev_eq h2.k
+    have hus : usOf s''.trace = usOf s.trace ++ usV new := by
+      show usV (viewsOf s''.trace) = usV (viewsOf s.trace) ++ usV new
+      rw [h4]; simp
+    have hit0 : (s.res storeId).items = a.items := by show (s.res 0).items = _; rw [hi.k.res]; rfl
+    have hit1 : (s''.res storeId).items = a'.items := by show (s''.res 0).items = _; rw [h2.k.res]; rfl
+    rcases astep_rule h3 with ⟨r1, r2, r3, r4⟩ | ⟨n, z, gaps', sizes', us', hsrc, hn, r1, r2, r3, r4, r5, r6⟩
+    · left
+      rw [hd0, hd1, hus, r4]
+      exact ⟨r1, r2, r3, by simp⟩
+    · right
+      have hmin := (isMin_of_pop hi.k hp).1
+      have hcur : Port.redCur (cfg c) d (s.res storeId).items.length = (Num.ofNat (curOf c a) : ℚ) := by
+        rw [hit0]; exact cur_eq (hi.a.advance hmin) hn d (by rw [hd0])
+      have havg : avg' = avgNew c a := by
+        show Port.redAvg d.avg (Port.redCur (cfg c) d (s.res storeId).items.length) c.w = _
+        rw [hcur, hd0]; rfl
+      have hdl : drawsLeft s = us' := drawsLeft_wait hi.k hsrc
+      have hu' : u = uAtt c (avgNew c a) us' := by
+        show (if needsDraw c avg' then (drawsLeft s).headD 0 else 0) = _
+        rw [havg, hdl]; rfl
+      have hdrop : drop = dropQ c (avgNew c a) (uAtt c (avgNew c a) us') := by
+        show Port.redDrop _ _ _ _ avg' u = _
+        rw [havg, hu']; rfl
+      have hnr : (n : Int) + 1 = (d.received : Int) + 1 := by
+        rw [hd0]
+        have := hi.a.gen.sent n (by rw [hsrc]; rfl)
+        simp [this]
+      refine ⟨by rw [hd0, hd1]; exact r1, by rw [hd1, havg]; exact r2, by rw [hus, r3, hu'], ?_, ?_,
+        needsDraw_false_iff avg', ?_, ?_, ?_⟩
+      · rw [havg, hdl]; exact r4
+      · rcases r5 with ⟨n', z', g', sz', q', hw⟩ | ⟨q', he⟩
+        · left
+          rw [drawsLeft_wait h2.k hw, havg, hdl]; rfl
+        · right; exact triggered_ending h2.k he
+      · rcases r6 with ⟨e1, e2, e3⟩ | ⟨e1, e2, e3⟩
+        · left; rw [hdrop, hd0, hd1, hit0, hit1]; exact ⟨e1, e2, e3⟩
+        · right
+          have e3' : a'.items = a.items ++ [((d.received : Int) + 1)] := by rw [e3, hnr]
+          rw [hdrop, hd1, hit0, hit1]
+          refine ⟨e1, ?_, e3'⟩
+          rw [hd0]; exact e2
+      · intro h; exact C09.red_always_drops_at_limit _ _ _ _ _ _ h
+      · intro h1' h2' h3'; exact C09.red_never_drops_below_min _ _ _ _ _ _ h1' h2' h3'
 
 /-- **Corollary (C09 `fifo_and_conservation` on the kernel, with RED drops)**: at every reachable kernel state the packets
 the RED LTS image has accepted so far (`ins`: as many as `packets_received − packets_dropped`) are, in order, exactly the
